@@ -116,10 +116,18 @@ func (g *gen) Generate(typs []types.Type) error {
 	p.P("return %s {", gStr)
 	p.In()
 	as := varnames(ftyp.Params())
-	p.P("return f(%s)", strings.Join(as, ", "))
+	p.P("%sf(%s)", returnKeyword(ftyp), strings.Join(as, ", "))
 	p.Out()
 	p.P("}")
 	p.Out()
 	p.P("}")
 	return nil
+}
+
+// returnKeyword is empty for a function without results: its call is a statement, not a value to return.
+func returnKeyword(sig *types.Signature) string {
+	if sig.Results().Len() == 0 {
+		return ""
+	}
+	return "return "
 }
